@@ -374,7 +374,8 @@ def rule_r2(prog, res):
         if isinstance(n.value, ast.ListComp) and isinstance(
                 n.value.elt, ast.Call) and isinstance(
                 n.value.elt.func, ast.Name):
-            helper = m.functions.get(n.value.elt.func.id)
+            helper = m.functions.get(n.value.elt.func.id) or \
+                m.functions.get(f.qualname + '.' + n.value.elt.func.id)
             if helper is not None:
                 elt_txt += ' ' + unparse(helper.node)
         dflt = '.default' in elt_txt.replace('.default_factory', '')
